@@ -87,6 +87,18 @@ def lift_sources(sc):
                          (r"bpf\.RoutingMetaMap\.Update\(uint32\(0\), routingsLen, ebpf\.UpdateAny\)", "meta write")):
         if len(re.findall(needle, body)) < 1:
             raise AnchorMoved("anchor moved: buildRoutingKernspace no longer contains the %s (%s); the harness replays these steps" % (what, needle))
+    if not re.search(r'if len\(rules\) == 0 \{\n\t\treturn nil, fmt\.Errorf\("no routing rules to build"\)', body):
+        raise AnchorMoved("anchor moved: buildRoutingKernspace's empty-rules check")
+    if not re.search(r"func \(s \*routingKernspaceSnapshot\) BuildKernspace\(log \*logrus\.Logger, bpf \*bpfObjects\) \(usedIndices \[\]uint32, err error\) \{\n(?:.*\n){3}\treturn buildRoutingKernspace\(log, bpf, s\.rules, s\.simulatedLpmTries, s\.dedupCount\)", rb):
+        raise AnchorMoved("anchor moved: routingKernspaceSnapshot.BuildKernspace no longer forwards (rules, simulatedLpmTries, dedupCount) to buildRoutingKernspace")
+    cp = open(os.path.join(vlib.REPO, "control", "control_plane.go")).read()
+    i1, i2, i3 = cp.find("kernspaceSnapshot := builder.KernspaceSnapshot()"), cp.find("kernspaceSnapshot.BuildKernspace(log, core.bpf.Load())"), cp.find("routingMatcher, err := builder.BuildUserspace()")
+    if not (0 <= i1 < i2 < i3) or "if !buildOpts.delayDatapathCommit {" not in cp[i1:i2]:
+        raise AnchorMoved("anchor moved: NewControlPlane no longer does snapshot -> [install unless delayDatapathCommit] -> BuildUserspace")
+    for fn in ("CommitPreparedDatapath", "RebuildReloadDatapath"):
+        r2 = go_func_text(cp, r"^func \(c \*ControlPlane\) %s\(\) error \{\n" % fn)
+        if r2 is None or "c.routingKernspaceSnapshot.BuildKernspace(c.log, c.core.bpf.Load())" not in r2[0]:
+            raise AnchorMoved("anchor moved: %s no longer installs from the kept routingKernspaceSnapshot" % fn)
     txt = ("//go:build verif\n\npackage control\n\n// GENERATED by tools/c02.py on every run from control/bpf_utils.go and control/routing_matcher_builder.go.\n\n"
            "import (\n\t\"encoding/binary\"\n\t\"net/netip\"\n\n\t\"github.com/daeuniverse/dae/common\"\n\t\"github.com/daeuniverse/dae/common/consts\"\n)\n\n"
            "var _ = binary.LittleEndian\nvar _ = netip.Prefix{}\nvar _ = common.Ipv6ByteSliceToUint32Array\nvar _ = consts.MaxMatchSetLen\n\n" + "\n".join(parts))
@@ -240,8 +252,26 @@ def reload_history(rng):
     return [rng.choice([0, 1, 3, 7, 100, 511, 512, 1000, 1023, 1024]) for _ in range(rng.randint(1, 5))]
 
 
-def make_case(prog, packets, reloads, rng=None):
-    return {"prog": prog, "text": c01.render(prog, rng), "groups": prog["groups"], "packets": packets, "reloads": reloads}
+# S = builder.KernspaceSnapshot(), U = builder.BuildUserspace(), I = snapshot.BuildKernspace():
+#   SIU first start; SUI staged reload (delayDatapathCommit, CommitPreparedDatapath); SIUI first start, later
+#   RebuildReloadDatapath; SUII staged reload, later rebuild; USI never happens in production (empty snapshot: error)
+ORDERS = ["SIU", "SIU", "SIU", "SUI", "SUI", "SUI", "SUI", "SUI", "SIUI", "SIUI", "SUII", "SUII", "USI"]
+COQ_STEP = {"S": "BSnapshot", "U": "BUserspace", "I": "BInstall"}
+
+
+def has_lpm(prog):
+    return any(c["kind"] in ("ip", "sip", "mac") for r in prog["rules"] for c in r["conds"])
+
+
+def pick_order(rng, prog):
+    o = rng.choice(ORDERS)
+    if o != "SIU" and not has_lpm(prog):
+        share_prefix_sets(rng, prog)       # every case that exercises an order has LPM-backed sets
+    return o
+
+
+def make_case(prog, packets, reloads, rng=None, order="SIU"):
+    return {"prog": prog, "text": c01.render(prog, rng), "groups": prog["groups"], "packets": packets, "reloads": reloads, "order": order}
 
 
 # ----------------------------------------------------------------------------------------------
@@ -249,17 +279,21 @@ def make_case(prog, packets, reloads, rng=None):
 # ----------------------------------------------------------------------------------------------
 
 GO_PKT_KEYS = ("src", "dst", "sport", "dport", "l4", "ipver", "domain", "pname", "mac", "dscp", "wan")
-KERN_ERR = [("too many lpm tries", 20), ("bad lpm index", 11), ("fallback rule MUST be the last", 4)]
+KERN_ERR = [("too many lpm tries", 20), ("bad lpm index", 11), ("fallback rule MUST be the last", 4), ("no routing rules to build", 22)]
 
 
-def kern_class(r):
-    e = r.get("kernerr")
+def kern_class(inst):
+    e = inst.get("kernerr")
     if not e:
         return 0
     for pat, code in KERN_ERR:
         if pat in e:
             return code
     return 97
+
+
+def installed(r):
+    return any(not i.get("kernerr") for i in r.get("installs") or [])
 
 
 def run_go(sc, gobin, cases, tag):
@@ -269,7 +303,7 @@ def run_go(sc, gobin, cases, tag):
             if c.get("layout"):
                 f.write(json.dumps({"layout": True}) + "\n")
             else:
-                f.write(json.dumps({"text": c["text"], "groups": c["groups"], "reloads": c["reloads"],
+                f.write(json.dumps({"text": c["text"], "groups": c["groups"], "reloads": c["reloads"], "order": c.get("order", "SIU"),
                                     "packets": [{k: p[k] for k in GO_PKT_KEYS} for p in c["packets"]]}) + "\n")
     rc, so, se, dt = vlib.run_go_harness(gobin, "TestVerifC02", inp, outp)
     if rc != 0:
@@ -285,13 +319,16 @@ def c_input(cases, results, idx):
     for i in idx:
         c, r = cases[i], results[i]
         lines.append("C %d" % i)
-        for k, hx in zip(r["rkeys"], r["kern"]):
-            lines.append("R %d %s" % (k, hx))
-        lines.append("N %d" % r["metalen"])
-        for slot, keys in zip(r.get("slots") or [], r.get("keys") or []):
-            lines.append("T %d" % slot)
-            for k in keys:
-                lines.append("K " + k)
+        for inst in r["installs"]:          # every successful call, in order: later calls overwrite
+            if inst.get("kernerr"):
+                continue
+            for k, hx in zip(inst["rkeys"], inst["kern"]):
+                lines.append("R %d %s" % (k, hx))
+            lines.append("N %d" % inst["metalen"])
+            for slot, keys in zip(inst.get("slots") or [], inst.get("keys") or []):
+                lines.append("T %d" % slot)
+                for k in keys:
+                    lines.append("K " + k)
         for j, (p, pr) in enumerate(zip(c["packets"], r["results"])):
             lines.append("P %d %d %d %s %d %d %d %d %s %s %s %s %s" % (
                 j, p["l4"], p["ipver"], p["pname"], p["dscp"], 1 if p["wan"] else 0, p["sport"], p["dport"], pr["src16"], pr["dst16"], p["mac"],
@@ -338,26 +375,35 @@ def packet_to_coq(cx, pk, r, cword):
                                                        c01.impl_res_to_coq(cx, r), kret_coq(cx, cword))
 
 
+def tries_to_coq(cx, tries):
+    out = []
+    for t in tries or []:
+        ps = []
+        for s_ in t:
+            fam, rest = s_[0], s_[1:]
+            hx, bits = rest.split("/")
+            ps.append(cx.t("prefix128", "(Build_prefix128 %s %s %s)" % (cbool(fam == "4"), cx.n(int(hx, 16)), bits)))
+        out.append(clist(ps))
+    return clist(out)
+
+
 def case_to_coq(cx, case, res, cwords, ci):
     msets = []
     for m in res.get("msets") or []:
         msets.append("(Build_mset %d %s %d %s %s %d %d %d %d %s %d)"
                      % (m["type"], cbool(m["not"]), m["out"], cx.n(m["mark"]), cbool(m["must"]), m["lpm"], m["ps"], m["pe"], m["mask"],
                         cx.t("list N", clist([str(b) for b in bytes.fromhex(m["pname"])])), m["dscp"]))
-    tries = []
-    for t in res.get("tries") or []:
-        ps = []
-        for s in t:
-            fam, rest = s[0], s[1:]
-            hx, bits = rest.split("/")
-            ps.append(cx.t("prefix128", "(Build_prefix128 %s %s %s)" % (cbool(fam == "4"), cx.n(int(hx, 16)), bits)))
-        tries.append(clist(ps))
+    insts = []
+    for i in res.get("installs") or []:
+        insts.append("(Build_obs_install %d %d %d %s\n %s %s %d %s\n %s)"
+                     % (i.get("alloc", 0), i.get("next", 0), kern_class(i), tries_to_coq(cx, i.get("tries")),
+                        clist([big(cx, h) for h in i.get("kern") or []]), clist([str(k) for k in i.get("rkeys") or []]), i.get("metalen", 0),
+                        clist([str(x) for x in i.get("slots") or []]), clist([clist([big(cx, k) for k in ks]) for ks in i.get("keys") or []])))
     pkts = [packet_to_coq(cx, pk, r, cwords.get((ci, j))) for j, (pk, r) in enumerate(zip(case["packets"], res.get("results") or []))]
-    return ("(Build_obs_case %s\n %s\n %s %d %d %d\n %s\n %s\n %s %d %s\n %s\n %s)"
-            % (clist(msets), clist(tries), clist([str(x) for x in case["reloads"]]), res.get("alloc", 0), res.get("next", 0), kern_class(res),
-               clist([big(cx, h) for h in res.get("raw") or []]), clist([big(cx, h) for h in res.get("kern") or []]),
-               clist([str(k) for k in res.get("rkeys") or []]), res.get("metalen", 0), clist([str(s) for s in res.get("slots") or []]),
-               clist([clist([big(cx, k) for k in ks]) for ks in res.get("keys") or []]), clist(pkts)))
+    return ("(Build_obs_case %s\n %s\n %s %s\n %s\n %s\n %s)"
+            % (clist(msets), tries_to_coq(cx, res.get("tries")), clist([str(x) for x in case["reloads"]]),
+               clist([COQ_STEP[ch] for ch in res.get("order", "SIU")]),
+               clist([big(cx, h) for h in res.get("raw") or []]), clist(insts), clist(pkts)))
 
 
 def consistent_inputs(case, res):
@@ -400,7 +446,7 @@ def run_impl(sc, gobin, cbin, cases, tag):
             pre[i] = [(0, 8)]
             continue
         idx.append(i)
-    runnable = [i for i in idx if not results[i].get("kernerr")]
+    runnable = [i for i in idx if installed(results[i])]
     cwords = {}
     if runnable:
         cwords, err = run_c(sc, cbin, c_input(cases, results, runnable), tag)
@@ -413,7 +459,7 @@ def py_spec_fail(cases, results, cwords, idx):
     """the property on the two real implementations, computed without Coq: {case: [packet indices]}"""
     bad = {}
     for i in idx:
-        if results[i].get("kernerr"):
+        if not installed(results[i]):
             continue
         for j, (p, r) in enumerate(zip(cases[i]["packets"], results[i]["results"])):
             if decode_py(cwords.get((i, j))) != expected_py(p["dport"], r):
@@ -480,12 +526,12 @@ def still_fails(sc, gobin, cbin, cases, tag):
     return [i in bad for i in range(len(cases))]
 
 
-def shrink(sc, gobin, cbin, prog, pkt, reloads):
+def shrink(sc, gobin, cbin, prog, pkt, reloads, order):
     for rnd in range(12):
         cands = c01.shrink_candidates(prog)
         if not cands:
             break
-        f = still_fails(sc, gobin, cbin, [make_case(p, [pkt], reloads) for p in cands], "shrink")
+        f = still_fails(sc, gobin, cbin, [make_case(p, [pkt], reloads, order=order) for p in cands], "shrink")
         if f is None:
             break
         hit = [i for i in range(len(cands)) if f[i]]
@@ -493,18 +539,24 @@ def shrink(sc, gobin, cbin, prog, pkt, reloads):
             break
         prog = min((cands[i] for i in hit), key=c01.prog_size)
     if reloads:
-        f = still_fails(sc, gobin, cbin, [make_case(prog, [pkt], [])], "shrinkr")
+        f = still_fails(sc, gobin, cbin, [make_case(prog, [pkt], [], order=order)], "shrinkr")
         if f and f[0]:
             reloads = []
+    for o in ("SIU", "SUI"):        # the simplest order that still fails
+        if o != order and len(o) <= len(order):
+            f = still_fails(sc, gobin, cbin, [make_case(prog, [pkt], reloads, order=o)], "shrinko")
+            if f and f[0]:
+                order = o
+                break
     neutral = {"domain": "", "pname": "00" * 16, "mac": "0" * 12, "dscp": 0, "sport": 0, "dport": 0, "wan": False}
     pk = dict(pkt)
     for k in [k for k, v in neutral.items() if pkt[k] != v]:   # one field at a time, keeping what still fails
         c = dict(pk)
         c[k] = neutral[k]
-        f = still_fails(sc, gobin, cbin, [make_case(prog, [c], reloads)], "shrinkp")
+        f = still_fails(sc, gobin, cbin, [make_case(prog, [c], reloads, order=order)], "shrinkp")
         if f and f[0]:
             pk = c
-    return prog, pk, reloads
+    return prog, pk, reloads, order
 
 
 def matcher_ids(prog, pkt, outside):
@@ -531,6 +583,7 @@ def main(argv):
            "checker_cmd": "cd /verif/coq && coq_makefile -f _CoqProject -o Makefile && make -j16 " + " ".join(TARGETS) + " && coqc -Q . Dae C02_Props.v (Print Assumptions captured)",
            "trusted_base": vlib.TRUSTED_BASE_COMMON + [
                "host build of control/kern/tproxy.c (clang, shim headers harness/c/headers) and the in-process map runtime harness/c/maprt.h standing in for the kernel's maps: array (zero-initialised), hash, array-of-maps, LPM trie with the documented longest-prefix semantics; bpf_loop is a plain loop",
+               "the kernel-side data is obtained through builder.KernspaceSnapshot() and read from the snapshot at the time of each (replayed) snapshot.BuildKernspace call, in the production orders relative to builder.BuildUserspace(); source-shape checks guard NewControlPlane / CommitPreparedDatapath / RebuildReloadDatapath's order and the snapshot's forwarding",
                "the production encoders of control/bpf_utils.go (excluded by the dae_stub_ebpf tag) are lifted as text into the harness on every run; buildRoutingKernspace's map writes cannot run without a kernel: the harness replays its steps with the real reserveLpmRingSlots, rewriteKernRulesWithRingLpmIndex, common.ARangeU32 and the lifted slot expression; a source-shape check guards the sequence",
                "the C driver builds route()'s arguments the way do_tproxy_lan_ingress / do_tproxy_wan_egress_{tcp,udp} do (flag words, mac_be, l4 header); the hooks themselves are C03's subject",
                "the BPF verifier, JIT, per-CPU scratch maps and real concurrency are not modelled"],
@@ -587,9 +640,10 @@ def main(argv):
                 print(json.dumps(payload, indent=1)[:3000])
                 return 1
             pk = payload["packet"]
-            case = make_case(payload["program"], [pk], payload.get("reloads", []))
+            case = make_case(payload["program"], [pk], payload.get("reloads", []), order=payload.get("order", "SIU"))
             errs, _, results, cwords, fatal = run_batch(sc, gobin, cbin, [case], "replay")
             print("program:\n" + case["text"])
+            print("steps (S snapshot, U BuildUserspace, I install from the snapshot):", case["order"])
             print("probe:", json.dumps(probe_view(pk)))
             if results:
                 r0 = (results[0].get("results") or [{}])[0]
@@ -606,13 +660,14 @@ def main(argv):
             for n in sorted(os.listdir(cdir)):
                 if n.endswith(".json"):
                     j = json.load(open(os.path.join(cdir, n)))
-                    corpus.append(make_case(j["program"], j["packets"], j.get("reloads", [])))
+                    corpus.append(make_case(j["program"], j["packets"], j.get("reloads", []), order=j.get("order", "SIU")))
 
         def gen(n, big_every=0):
             cs = []
             for i in range(n):
                 prog = gen_wide_program(rng) if (big_every and i % (3 * big_every) == 5) else gen_program(rng, big=(big_every and i % big_every == 0))
-                cs.append(make_case(prog, gen_packets(rng, prog, n_pkt), reload_history(rng), rng))
+                order = pick_order(rng, prog)
+                cs.append(make_case(prog, gen_packets(rng, prog, n_pkt), reload_history(rng), rng, order=order))
             return cs
 
         cases = corpus + gen(n_prog, big_every=(13 if quick else 7))
@@ -655,12 +710,12 @@ def main(argv):
         queue = []
         for i in sorted(spec_fail(), key=lambda i: c01.prog_size(cases[i]["prog"])):
             pidx = [p for (p, c) in all_err[i] if c == 2][0]
-            queue.append((cases[i]["prog"], cases[i]["packets"][pidx], cases[i]["reloads"], i))
+            queue.append((cases[i]["prog"], cases[i]["packets"][pidx], cases[i]["reloads"], i, cases[i]["order"]))
         n_classes = 0
         while queue and n_classes < 3:
-            prog, pkt, rel, i = queue.pop(0)
-            sprog, spkt, srel = shrink(sc, gobin, cbin, prog, pkt, rel)
-            e, _, res1, cw1, _ = run_batch(sc, gobin, cbin, [make_case(sprog, [spkt], srel)], "final")
+            prog, pkt, rel, i, order = queue.pop(0)
+            sprog, spkt, srel, sorder = shrink(sc, gobin, cbin, prog, pkt, rel, order)
+            e, _, res1, cw1, _ = run_batch(sc, gobin, cbin, [make_case(sprog, [spkt], srel, order=sorder)], "final")
             guard_violated = has_code(e or {}, 0, 9)
             ids = matcher_ids(sprog, spkt, guard_violated)
             n_classes += 1
@@ -668,12 +723,14 @@ def main(argv):
             w = (cw1 or {}).get((0, 0))
             kdesc = "route() = %s" % w if (w is None or w < 0) else "route() word %d = outbound %d mark %d must %d" % (w, w & 0xff, (w >> 8) & 0xffffffff, (w >> 40) & 1)
             out.violation("impl_vs_spec_%d" % n_classes,
-                          {"program": sprog, "program_text": c01.render(sprog), "packet": spkt, "reloads": srel,
+                          {"program": sprog, "program_text": c01.render(sprog), "packet": spkt, "reloads": srel, "order": sorder,
+                           "order_meaning": "S builder.KernspaceSnapshot(), U builder.BuildUserspace(), I snapshot.BuildKernspace() - SIU first start, SUI staged reload (CommitPreparedDatapath), ..I again RebuildReloadDatapath",
+                           "installed_prefix_lists": [i_.get("tries") for i_ in (res1[0].get("installs") or [])] if res1 else None, "lowered_prefix_lists": res1[0].get("tries") if res1 else None,
                            "userspace": {k: impl.get(k) for k in ("o", "mark", "must", "err")}, "kernel_word": w, "original_case_index": i,
                            "outside_quantifier_lan_probe_with_name": guard_violated, "port_codec": (res1[0].get("portcodec") if res1 else None),
                            "how": "./check C02 --replay <this file>; the text is parsed by config_parser, lowered by NewRoutingMatcherBuilder, its match-set bytes, ring slots and LPM keys are loaded into the host-compiled tproxy.c maps and the real route() is called with the probe; RoutingMatcher.Match gets the same probe"},
-                          "kernel route() and userspace RoutingMatcher.Match decide differently (%s): %s, userspace %s" % (
-                              ", ".join(ids), kdesc, json.dumps({k: impl.get(k) for k in ("o", "mark", "must", "err")})),
+                          "kernel route() and userspace RoutingMatcher.Match decide differently (%s, steps %s): %s, userspace %s" % (
+                              ", ".join(ids), sorder, kdesc, json.dumps({k: impl.get(k) for k in ("o", "mark", "must", "err")})),
                           matchers=ids)
             if queue:
                 feats = set(c["kind"] for r in sprog["rules"] for c in r["conds"])
@@ -691,23 +748,26 @@ def main(argv):
                 i = of[0]
                 what["correspondence_case"] = {"errors": all_err[i], "program_text": cases[i]["text"], "program": cases[i]["prog"], "reloads": cases[i]["reloads"],
                                                "packets": [probe_view(cases[i]["packets"][p]) for (p, c) in all_err[i][:3] if p < len(cases[i]["packets"])],
-                                               "impl": {k: all_res.get(i, {}).get(k) for k in ("stage", "err", "kernerr", "alloc", "next", "slots", "raw", "kern")},
+                                               "impl": {k: all_res.get(i, {}).get(k) for k in ("stage", "err", "order", "tries", "installs", "raw")}, "order": cases[i]["order"],
                                                "codes": "1 C route()<>kernel model, 3 kernel model<>spec, 4 Go Match<>userspace model, 5 builder bytes<>enc_mset, 6 ring/rewrite/keys/meta<>model, 7 domain entry<>model, 8 harness trouble"}
             what["searched"] = "%d probes over %d programs (widened=%s); %d programs show a C<>dns_adjust(Go) disagreement, none of them explains this" % (n_eval, len(cases), widened, len(spec_fail()))
             out.violation("tie", what, "proof obligation or model correspondence no longer checks; no failing input found", no_failing_input=True)
 
         nontrivial = len(set(s for s in sigs if int(s[1]) >= 2))
         model_bad = len([i for i, e in all_err.items() if any(c in (1, 4, 5, 6, 7, 8) for (_, c) in e)])
-        installed = len([i for i, r in all_res.items() if not r.get("stage") and not r.get("kernerr")])
+        n_installed = len([i for i, r in all_res.items() if not r.get("stage") and installed(r)])
+        orders = {}
+        for c_ in cases:
+            orders[c_["order"]] = orders.get(c_["order"], 0) + 1
         sample = cases[len(corpus)] if len(cases) > len(corpus) else cases[0]
-        cov.update(evaluations=n_eval, programs=len(cases), programs_installed=installed, distinct_nontrivial=nontrivial, distinct_signatures=len(set(sigs)),
+        cov.update(evaluations=n_eval, programs=len(cases), programs_installed=n_installed, step_orders=orders, distinct_nontrivial=nontrivial, distinct_signatures=len(set(sigs)),
                    dns_handovers=sum(int(s[2]) for s in sigs), wan_probes=sum(int(s[3]) for s in sigs), must_decisions=sum(int(s[4]) for s in sigs),
                    rule="random routing programs as in C01 (0-40 rules over the ten functions, negation, keyed groups, must_rules, must_ prefix, (must), marks up to 2^32-1, group ids incl. 251) plus the empty process name, rendered as config text, "
-                        "parsed and lowered by the real code; ring histories of earlier reloads (counts near 0, 512, 1019..1024) so that slots wrap; every LPM slot not written by the generation under test holds a match-everything trie; "
+                        "parsed and lowered by the real code; the ControlPlane's steps KernspaceSnapshot / BuildUserspace / snapshot.BuildKernspace executed in the orders SIU (first start), SUI (staged reload), SIUI and SUII (RebuildReloadDatapath) and USI (never in production: empty snapshot, install error), every order other than SIU on a program with LPM-backed sets; ring histories of earlier reloads (counts near 0, 512, 1019..1024) so that slots wrap; every LPM slot not written by the generation under test holds a match-everything trie; "
                         "probes from the program's boundary values, 30% to port 53 (tcp and udp), LAN (no process name) and WAN (name, or unknown process) with and without MAC, both families; "
                         "signature = (#match-sets, #distinct kernel result words, #DNS hand-overs, #WAN probes, #must decisions); non-trivial = at least two distinct result words",
                    traces_validated_against_impl=len(cases) - model_bad,
-                   comparisons="per program: builder bytes = enc_mset, ring allocation/slots/rewritten rules/LPM keys/meta = install; per probe: C route() = kernel model (exact word), Go Match = userspace model, C = dns_adjust(Go), kernel model = dns_adjust(userspace model), domain entry = model",
+                   comparisons="per program: builder bytes = enc_mset; per replayed buildRoutingKernspace call: prefix lists read from the snapshot = the lowered program's (model log of the step machine), ring allocation/slots/rewritten rules/LPM keys/meta = install; per probe: C route() = kernel model (exact word), Go Match = userspace model, C = dns_adjust(Go), kernel model = dns_adjust(userspace model), domain entry = model",
                    samples=[{"text": sample["text"], "groups": sample["groups"], "reloads": sample["reloads"], "packets": [probe_view(p) for p in sample["packets"][:2]]}],
                    widened_search=widened)
     return out.finish()
